@@ -52,6 +52,8 @@ TRUSTED = [
     "(limit 0, max OMEN level 9) and the 4th tab-separated column password_scorer.py writes (-o file / stdout) when run on a "
     "scratch copy of the code tree; in the model it is scorer_level (the detectors cannot change it)",
 ]
+import loader2_tie as _loader2_tie
+TRUSTED = TRUSTED + [_loader2_tie.TRUSTED]
 ASSUMES = [
     "wf_ttab: keys of the trainer's grammar are distinct, all of length ngram-1, letters distinct per key, "
     "len(ln_lookup) = max_length, min_length = ngram >= 2 (checked on every generated table)",
@@ -599,6 +601,9 @@ def run(ctx):
     corr = [omen_gen_tie.status("omen-level:translator-tie", "gen/OmenLevel_gen.v", "theories/OmenLevelGenProofs.v")]
     import omen_trainer_tie
     corr += omen_trainer_tie.obligations("C11")
+    # the two readers of the OMEN files (guesser: load_rules, scorer: OmenScorer.__init__), translated
+    import loader2_tie
+    corr += loader2_tie.obligations("C11")
     if missing_consts:
         corr.append(("omen-level:constants", False, "constants missing from gen/Consts_gen.v (extractor plugin failed): %s; "
                      "no correspondence case could be written" % sorted(missing_consts)))
